@@ -114,6 +114,8 @@ def guards(rep, prog, rule):
         for (bb, j, rv, whole) in f.defs().get(0, []):
             if rv[0] == "agg" and rv[1] == "adt" and rv[3] and rv[3][1] == "None":
                 continue
+            if rv[0] == "callret" and "from_residual" in str(rv[1]):
+                continue            # `?` passing a None on
             some_blocks.append(bb)
         if not some_blocks:
             rep.unk(rule, key, f.loc, "no Some return found")
@@ -477,18 +479,28 @@ def offsets(rep, prog, rule):
                 or c.name.endswith("from_pixels_slice")]
         wfield = ("field", ("param", 1, "self"), "width")
         bad = None
+        unresolved = None
         for c in sp:
-            mid = canon(sym.operand(c.args[1]))
-            if not (mid[0] == "bin" and mid[1] == "Mul" and wfield in (mid[2], mid[3])):
-                bad = "split_at(%s) is not a multiple of self.width" % fmt(mid)
+            mid = canon(sym.operand(c.args[1], (c.bb, "term")))
+            if mid[0] == "bin" and mid[1] == "Mul":
+                if wfield not in (mid[2], mid[3]):
+                    bad = "split_at(%s) is not a multiple of self.width" % fmt(mid)
+            else:
+                unresolved = "split_at(%s)" % fmt(mid)[:60]      # a value computed elsewhere
         for c in ctor:
-            a0 = canon(sym.operand(c.args[0]))
-            if a0 != wfield:
+            a0 = canon(sym.operand(c.args[0], (c.bb, "term")))
+            if a0 == wfield:
+                continue
+            if a0[0] == "field" and a0[1] == ("param", 1, "self"):
                 bad = "part constructed with width %s" % fmt(a0)
+            else:
+                unresolved = "part width %s" % fmt(a0)[:60]
         if len(sp) < 2 or len(ctor) != 1:
             rep.unk(rule, key + "|slices", f.loc, "split_at=%d ctor=%d" % (len(sp), len(ctor)))
         elif bad:
             rep.bad(rule, key + "|slices", f.loc, bad)
+        elif unresolved:
+            rep.unk(rule, key + "|slices", f.loc, "%s not resolved to rows of self.width pixels" % unresolved)
         else:
             rep.ok(rule, key + "|slices", f.loc, "rows of self.width pixels")
     rep.floor(rule, "slice-based splits", k, 3)
